@@ -108,6 +108,12 @@ func (f *fwd) dial(ctx context.Context, network, address string) (net.Conn, erro
 	key := strings.ToLower(address)
 	f.mu.Lock()
 	real, ok := f.names[key]
+	if !ok {
+		// "<anything>.name:port" falls back to "*.name:port": lets cases use private connection pools
+		if i := strings.IndexByte(key, '.'); i > 0 {
+			real, ok = f.names["*"+key[i:]]
+		}
+	}
 	fault := f.faults[key]
 	f.dials = append(f.dials, dialRec{Addr: address, OK: ok && fault == ""})
 	f.mu.Unlock()
